@@ -296,7 +296,7 @@ func (w *Wrapper) setField(key string, v any) {
 		field := w.val.Field(i)
 		sf := w.val.Type().Field(i)
 
-		if key == sf.Tag.Get("json") {
+		if key == sf.Tag.Get("json") && sf.Tag.Get("api") != "" {
 			if v == nil {
 				field.Set(reflect.New(field.Type()).Elem())
 				return
